@@ -1,5 +1,5 @@
 ENGINES = [
-    {"name": "pyscan", "path": "vt/", "serves_properties": ["C01", "C02", "C07", "C12", "C10", "C11", "C13", "C19", "C20"],
+    {"name": "pyscan", "path": "vt/", "serves_properties": ["C01", "C02", "C04", "C07", "C12", "C10", "C11", "C13", "C19", "C20"],
      "kind_free_text": "runtime monitoring of the real Python scanner modules imported from /repo's working tree: recorded events judged by independent reference models, icontract invariants on live objects"},
 ]
 NOTES = "All checks: ./check <id> --tier quick|thorough [--seed N]; VERIF_SEED/VERIF_TIER honoured. Exit 0 held / 1 VIOLATION / 2 INCONCLUSIVE. See DESIGN.md."
@@ -44,3 +44,7 @@ add('C07', 'pyscan', 'runtime monitoring: write/read/write cycles of the real GI
 add('C12', 'pyscan', 'runtime monitoring: generated GObject-style libraries (declarations + runtime dump) through Transformer, GDumpParser (fake introspection binary copies the dump, real subprocess path), MainTransformer, GIRWriter; emitted classes/interfaces/boxed/properties/signals/vfuncs/error domains judged against the model',
     'held on the executions produced: type names, get-type, nearest known parent through hidden intermediates, resolvable interfaces/prerequisites, property flag bits 0-3 of arbitrary 32-bit words, types and defaults, signal phase/flags/types, boxed pairing, class/iface struct links both ways, instance-first vfuncs only, get-type functions removed, error domains; one defect found and fixed (quark functions absorbed by a class)',
     'trusted: synthetic dumps in gdump.c\'s format (not yet cross-checked against a real GObject runtime dump), objgen model', 'DESIGN.md 4 C12')
+
+add('C04', 'pyscan', 'runtime monitoring: generated declaration sets under generated prefix configurations through the real scanner passes; multiset of c:identifier/c:type, nesting and names judged by an expected-public-set model with only-if conditions for methods/constructors',
+    'held on the executions produced: every expected public name exactly once (moved-to copies aside), nothing foreign/hidden/undeclared, GIR names = C name minus namespace prefix minus owner prefix, methods only with matching first parameter and prefix, constructors only with prefix and return type; 8 prefix configurations incl. nested and included-namespace prefixes and accept-unprefixed',
+    'trusted: judge model; underscore-named *types* not judged (statement speaks of symbols); CLI option handling not driven', 'DESIGN.md 4 C04')
